@@ -5,7 +5,6 @@ package alt
 import (
 	"encoding/json"
 	"fmt"
-	"math"
 	"reflect"
 	"strconv"
 	"strings"
@@ -240,11 +239,7 @@ func (r *Recomposer) recompAny(v any) any {
 	case uint64:
 		v = int64(tv)
 	case float32:
-		// This small rounding makes the conversion from 32 bit to 64 bit
-		// display nicer.
-		f, i := math.Frexp(float64(tv))
-		f = float64(int64(f*fracMax)) / fracMax
-		v = math.Ldexp(f, i)
+		v = float32To64(tv)
 	case []any:
 		a := make([]any, len(tv))
 		for i, m := range tv {
